@@ -1,10 +1,13 @@
 /-
   Properties/State.lean — the packages keep no process-wide mutable state.  `packageStateTable` (Model/Tables.lean) is
   regenerated from the source on every run: every package-level variable of the hand-written packages with the kind
-  of value it holds.  Variables that can hold state shared by all calls in the process — maps, slices, pointers,
-  sync.Pool / sync.Map / mutexes, structs — must be among the ones listed here (the two tables of the checker,
-  which the code only reads, and cobra's command objects).  A cache, memo, pool or shared number added at package
-  level changes the table and these theorems no longer check.
+  of value it holds.  A map or slice that the code of the repository only ever READS (indexing, ranging, `len`,
+  membership tests — decided by the extractor from every use, in every package) is listed as a `table`; one that is
+  assigned, appended to, deleted from, sliced, handed to an unknown function, returned or stored is a `map` / `slice`.
+  Variables that can hold state shared by all calls in the process — written maps and slices, pointers,
+  sync.Pool / sync.Map / mutexes, structs — must be among the ones listed here (cobra's command objects).  A cache,
+  memo, pool or shared number added at package level, or a write to one of the tables, changes the table and these
+  theorems no longer check; a new read-only dispatch table does not.
 -/
 import Model.Tables
 
@@ -13,8 +16,7 @@ namespace NS
 def statefulKinds : List String := ["map", "slice", "pointer", "sync", "struct", "other"]
 
 def knownPackageState : List (String × String) :=
-  [("internal/analysis", "AllowedTypes"), ("internal/analysis", "Builtins"),
-   ("internal/cmd", "checkCmd"), ("internal/cmd", "lspCmd"), ("internal/cmd", "rootCmd")]
+  [("internal/cmd", "checkCmd"), ("internal/cmd", "lspCmd"), ("internal/cmd", "rootCmd")]
 
 def statefulIn (pkgs : List String) : List (String × String) :=
   (packageStateTable.filter (fun e => pkgs.contains e.1 && statefulKinds.contains e.2.2)).map (fun e => (e.1, e.2.1))
@@ -25,9 +27,9 @@ theorem interpreter_keeps_no_state : statefulIn ["internal/interpreter", "intern
 /-- the parser package holds no state between parses -/
 theorem parser_keeps_no_state : statefulIn ["internal/parser"] = [] := by decide
 
-/-- the checker's only package-level values are its two tables (read, never written: see the state probe of the harness) -/
-theorem analysis_state_is_its_tables :
-    statefulIn ["internal/analysis"] = [("internal/analysis", "AllowedTypes"), ("internal/analysis", "Builtins")] := by decide
+/-- the checker's package-level values are tables that no code of the repository writes (the state probe of the
+    harness watches them at run time as well) -/
+theorem analysis_state_is_its_tables : statefulIn ["internal/analysis"] = [] := by decide
 
 /-- the language server keeps its documents in the `State` value handed to `Handle`, nothing at package level -/
 theorem lsp_keeps_no_package_state : statefulIn ["internal/lsp"] = [] := by decide
